@@ -1,5 +1,6 @@
 """C08 — contracts are checked at the documented points; failures raise the right error."""
 import copy
+import re
 import json
 
 from .. import gen, oracles, engine, impl
@@ -64,6 +65,8 @@ class C08(InterpProp):
     def knobs(self, rnd, tier):
         return gen.Knobs(contracts=0.8, cflags=0, max_states=rnd.choice([5, 9, 13]), sends=0.15)
 
+    ALWAYS = ('x >= 0', 'x + 1 > x')
+
     def post_build(self, rnd, g, sc):
         n = 0
         objs = [sc.state_for(s) for s in sc.states] + list(sc.transitions)
@@ -74,6 +77,15 @@ class C08(InterpProp):
                 for i in range(len(lst)):
                     lst[i] = 'k%d and (%s)' % (n, lst[i])
                     n += 1
+        if rnd.random() < 0.25:
+            # a condition whose text is also a piece of executable code that runs before it is evaluated (an
+            # expression statement: it does nothing)
+            texts = [c for o in objs for lst in (o.preconditions, o.postconditions, o.invariants) for c in lst
+                     if c.split(' and (', 1)[-1].rstrip(')') in self.ALWAYS]
+            free = [o for o in objs if hasattr(o, "on_entry") and o.on_entry is None]
+            rnd.shuffle(free)
+            for c, o in zip(texts[:2], free):
+                o.on_entry = c
         self._n = n      # the flags k0..k(n-1) are given to the interpreter as its initial context (all True)
 
     def gen_case(self, rnd, tier):
@@ -134,6 +146,13 @@ class C08(InterpProp):
             r = ob['r']
             if r['outcome'] == 'error':
                 res.features.add('baseline-err:' + r['err']['class'])
+                # every flag is true in the baseline: a condition `kN and (C)` with C true whatever the variables
+                # are does not fail
+                cond = r['err'].get('cond') or ''
+                m = re.fullmatch(r'k\d+ and \((.*)\)', cond)
+                if m and m.group(1) in self.ALWAYS:
+                    res.violations.append('step %d: %s for condition %r of %s, which holds (its flag is true)'
+                                          % (k, r['err']['class'], cond, r['err'].get('obj')))
                 break
             exp = expected_points(sc, trans, r.get('step'), ob['world']['slots'][0]['config'])
             got = [e for e in r['eff'] if e[0] in ('exit', 'action', 'entry', 'cond')]
@@ -156,6 +175,14 @@ class C08(InterpProp):
                 else:
                     res.features.add('old-read-' + e[2][0])
                     want = snaps.get(json.dumps(e[2]))
+                    if e[4] is None or want is None:
+                        res.violations.append('step %d: %s condition %d of %s mentions __old__ and was evaluated with %s: '
+                                              '__old__ shows the variables as they were when the %s'
+                                              % (k, e[1], e[3], e[2],
+                                                 'no __old__ at all' if e[4] is None else 'an __old__ nobody asked to take',
+                                                 'transition started' if e[2][0] == 't' else 'state was entered'))
+                        bad = True
+                        break
                     if e[4] != want:
                         res.violations.append('step %d: %s condition %d of %s was shown __old__ = %s, the variables were %s when it %s'
                                               % (k, e[1], e[3], e[2], e[4], want,
